@@ -130,6 +130,9 @@ func (c *MustacheTemplate) CreateVariables(variables *map[string]string) {
 	if variables == nil {
 		return
 	}
+	if *variables == nil {
+		*variables = map[string]string{}
+	}
 
 	for _, variableName := range c.parser.VariableNames() {
 		found := c.GetVariable(*variables, variableName) != nil
